@@ -132,6 +132,7 @@ func genDispatch(c *ctx) string {
 	b.WriteString("def anonAmongOthers : Bool := " + anonAmongOthersForm(c) + "\n")
 	b.WriteString("def metaArgsUnchecked : Bool := " + metaArgsFact(c) + "\n")
 	b.WriteString("def ptrValueDistinct : Bool := " + ptrValueForm(c) + "\n")
+	b.WriteString("def unionAtMember : Bool := " + unionAtMemberForm(c) + "\n")
 	b.WriteString("def reflectOptionalRefused : Bool := " + reflectOptionalForm(c) + "\n")
 	b.WriteString("def inputDefaultsRaw : Bool := " + inputValidateForm(c) + "\n")
 	b.WriteString("def listNotCoerced : Bool := " + lnc + "\n")
@@ -406,6 +407,26 @@ func ptrValueForm(c *ctx) string {
 		return "false"
 	}
 	return unknown("Go type binding sites", "root.go")
+}
+
+// unionAtMemberForm (D103): are the selections under a union-typed field resolved at the member type the value is
+// bound to (so a member's field can be selected there without a fragment), or at the union?
+func unionAtMemberForm(c *ctx) string {
+	fd := c.funcs["Root.resolve"]
+	if fd == nil {
+		return unknown("resolve", "resolve.go")
+	}
+	t := regexp.MustCompile(`(?m)//.*$`).ReplaceAllString(c.src(fd.Body), "")
+	t = regexp.MustCompile(`\s+`).ReplaceAllString(t, " ")
+	atMember := strings.Count(t, "result, ea = root.resolveFieldSels(obj, vars, field, m, depth-1)")
+	atUnion := strings.Count(t, "== meta { result, ea = root.resolveFieldSels(obj, vars, field, t, depth-1) unbound = nil break }")
+	switch {
+	case atMember == 1 && atUnion == 0:
+		return "true"
+	case atMember == 0 && atUnion == 1:
+		return "false"
+	}
+	return unknown("union arm walk type", c.pos(fd))
 }
 
 // reflectOptionalForm (D94): is an optional argument that is left out (or null) refused by checkReflectArgs
@@ -983,7 +1004,8 @@ func bindingForms(c *ctx) (unionFirstCome, ifaceNeedsBound string) {
 			case head + `for _, m := range tt.Members { if ot, _ := m.(*Object); ot != nil { if meta, err := ot.metaCheck(objType); err != nil { return nil, []error{err} } else if objType == meta { result, ea = root.resolveFieldSels(obj, vars, field, m, depth-1) break } } }`:
 				unionFirstCome = "true"
 			case head + `var unbound error ; for _, m := range tt.Members { if ot, _ := m.(*Object); ot != nil { if meta, err := ot.metaCheck(objType); err != nil { if unbound == nil { unbound = err } } else if objType == meta { result, ea = root.resolveFieldSels(obj, vars, field, m, depth-1) unbound = nil break } } } ; if unbound != nil { return nil, []error{unbound} }`,
-				head + `var unbound error ; for _, m := range tt.Members { if ot, _ := m.(*Object); ot != nil { if meta, err := ot.metaCheck(objType); err != nil { if unbound == nil { unbound = err } } else if baseType(objType) == meta { result, ea = root.resolveFieldSels(obj, vars, field, m, depth-1) unbound = nil break } } } ; if unbound != nil { return nil, []error{unbound} }`:
+				head + `var unbound error ; for _, m := range tt.Members { if ot, _ := m.(*Object); ot != nil { if meta, err := ot.metaCheck(objType); err != nil { if unbound == nil { unbound = err } } else if baseType(objType) == meta { result, ea = root.resolveFieldSels(obj, vars, field, m, depth-1) unbound = nil break } } } ; if unbound != nil { return nil, []error{unbound} }`,
+				head + `var unbound error ; for _, m := range tt.Members { if ot, _ := m.(*Object); ot != nil { if meta, err := ot.metaCheck(objType); err != nil { if unbound == nil { unbound = err } } else if baseType(objType) == meta { result, ea = root.resolveFieldSels(obj, vars, field, t, depth-1) unbound = nil break } } } ; if unbound != nil { return nil, []error{unbound} }`:
 				unionFirstCome = "false"
 			default:
 				unionFirstCome = unknown("resolve union arm body", c.pos(cc))
